@@ -168,6 +168,15 @@ class CFGBuilder(AstVisitor[BB | None]):
             and node.value is not None
         ):
             node.value, bb = ExprBuilder.build(node.value, self.cfg, bb)
+        # Subscript targets may contain control-flow expressions in their index, which
+        # Python evaluates after the assigned value
+        if isinstance(node, ast.Assign):
+            for i, target in enumerate(node.targets):
+                node.targets[i], bb = ExprBuilder.build(target, self.cfg, bb)
+        elif isinstance(node, ast.AugAssign | ast.AnnAssign):
+            target, bb = ExprBuilder.build(node.target, self.cfg, bb)
+            assert isinstance(target, ast.Name | ast.Attribute | ast.Subscript)
+            node.target = target
         bb.statements.append(node)
         return bb
 
